@@ -214,6 +214,10 @@ func runC18(r *rt.Run) {
 		r.ParFor(len(pre), func(i int, w *rt.Worker) {
 			lat.SeqsFrom(L, pre[i], 2, d, func(seq []exact.P) { c18OneT(seq, farFineXf, w) })
 		})
+		// and at 2^-300 (turn products underflow when multiplied together)
+		r.ParFor(len(pre), func(i int, w *rt.Worker) {
+			lat.SeqsFrom(L, pre[i], 2, d, func(seq []exact.P) { c18OneT(seq, Xf{Scale: 0x1p-301}, w) })
+		})
 	}
 	c18NearParallel(r)
 	c18Moved(r)
